@@ -250,7 +250,7 @@ def c06_reflected_logical(rec, params):
 def c06_logical_unaligned(rec, params):
     cs = (rec.get('case') or {}).get('cs') or {}
     act = rec.get('actual') or {}
-    if cs.get('fn') not in ('and', 'or') or act.get('k') != 'err' or cs.get('op') not in ('s_binop', 'f_binop', 'fs_binop'):
+    if cs.get('fn') not in ('and', 'or') or act.get('k') != 'err' or cs.get('op') not in ('s_binop', 'f_binop', 'fs_binop', 'fsT_binop'):
         return False
     import json
     S = lambda ls: {json.dumps(l) for l in ls}
@@ -259,6 +259,8 @@ def c06_logical_unaligned(rec, params):
         return S(a['index']) != S(b['index'])
     if cs['op'] == 'f_binop':
         return S(a['index']) != S(b['index']) or S(a['columns']) != S(b['columns'])
+    if cs['op'] == 'fsT_binop':
+        return S(a['index']) != S(b['index'])
     return S(a['columns']) != S(b['index'])
 
 
@@ -266,7 +268,7 @@ def c06_logical_unaligned(rec, params):
 def c06_empty_operand(rec, params):
     cs = (rec.get('case') or {}).get('cs') or {}
     act = rec.get('actual') or {}
-    if act.get('k') != 'err' or cs.get('op') not in ('f_binop', 'fs_binop'):
+    if act.get('k') != 'err' or cs.get('op') not in ('f_binop', 'fs_binop', 'fsT_binop'):
         return False
     a, b = cs['a'], cs['b']
     empty = lambda x: any(len(x.get(k, [0])) == 0 for k in ('index', 'columns') if k in x)
